@@ -821,3 +821,128 @@ func isBoolPhiOrExtract(v ssa.Value) bool {
 	}
 	return false
 }
+
+func init() {
+	register(&Rule{
+		ID: "TXN-VIEWS", Props: []string{"C03", "C07", "C02"}, Floor: 7,
+		Doc: "a write transaction reads its own state through txn.tableEntries (root, getTableEntry, indexReadTxn, indexWriteTxn: read-your-writes) and exposes the state at its start only through committedRoot() = *txn.oldRoot; a read transaction's root and committedRoot are the same slice",
+		Run: ruleTxnViews,
+	})
+	register(&Rule{
+		ID: "NONUNIQUE-FILTER", Props: []string{"C04"}, Floor: 3,
+		Doc: "on non-unique indexes Get and List accept exactly the entries whose secondary key length equals the (escaped) search key's length, Prefix those that are at least as long: the three filters are (in)equalities between nonUniqueKey.secondaryLen() and len(searchKey) with these operators",
+		Run: ruleNonUniqueFilter,
+	})
+}
+
+func ruleTxnViews(c *Ctx, r *Reporter) {
+	usesField := func(fn *ssa.Function, typeName, field string) bool {
+		for _, ia := range allInstrs(fn) {
+			if u, ok := ia.In.(*ssa.UnOp); ok {
+				if _, ok := loadOfField(u, typeName, field); ok {
+					return true
+				}
+			}
+		}
+		return false
+	}
+	type spec struct {
+		recv, name    string
+		must, mustNot string
+		why           string
+	}
+	for _, s := range []spec{
+		{"writeTxnState", "root", "tableEntries", "oldRoot", "the transaction's own (uncommitted) view"},
+		{"writeTxnState", "getTableEntry", "tableEntries", "oldRoot", "the transaction's own view"},
+		{"writeTxnState", "indexReadTxn", "tableEntries", "oldRoot", "reads see the transaction's earlier writes"},
+		{"writeTxnState", "indexWriteTxn", "tableEntries", "oldRoot", "writes go to the private entry"},
+		{"writeTxnState", "hasDeleteTrackers", "tableEntries", "oldRoot", "trackers registered in this transaction count"},
+		{"writeTxnState", "committedRoot", "oldRoot", "tableEntries", "the committed state at WriteTxn time, without this transaction's writes"},
+	} {
+		fn := c.Func("statedb", s.recv, s.name)
+		if fn == nil {
+			r.anchorMissing("statedb.(" + s.recv + ")." + s.name)
+			continue
+		}
+		good := usesField(fn, "writeTxnState", s.must) && !usesField(fn, "writeTxnState", s.mustNot)
+		r.check(good, c.fnName(fn)+"|reads txn."+s.must, c.posStr(fn.Pos()), "reads txn."+s.must+": "+s.why, "reads the wrong root (expected txn."+s.must+", never txn."+s.mustNot+"): "+s.why+" no longer holds")
+	}
+	// readTxn: root() and committedRoot() both return *r
+	for _, n := range []string{"root", "committedRoot"} {
+		fn := c.Func("statedb", "readTxn", n)
+		if fn == nil {
+			r.anchorMissing("statedb.(readTxn)." + n)
+			continue
+		}
+		good := false
+		for _, ret := range returnsOf(fn) {
+			if p, ok := isLoad(stripConv(ret.Results[0])); ok && p == ssa.Value(fn.Params[0]) {
+				good = true
+			}
+		}
+		r.check(good, c.fnName(fn)+"|returns the snapshot itself", c.posStr(fn.Pos()), "returns *r", "a read transaction's "+n+"() is not the snapshot slice itself")
+	}
+}
+
+func ruleNonUniqueFilter(c *Ctx, r *Reporter) {
+	// collect comparisons secondaryLen() <op> len(x) per function
+	type cmpInfo struct {
+		op   token.Token
+		bo   *ssa.BinOp
+		fact []edgeFact
+	}
+	find := func(fn *ssa.Function) []cmpInfo {
+		var out []cmpInfo
+		for _, f := range withAnon(fn) {
+			for _, ia := range allInstrs(f) {
+				bo, ok := ia.In.(*ssa.BinOp)
+				if !ok {
+					continue
+				}
+				isSL := func(v ssa.Value) bool {
+					call, ok := v.(*ssa.Call)
+					if !ok {
+						return false
+					}
+					sf := staticCallee(call)
+					return sf != nil && sf.Name() == "secondaryLen"
+				}
+				isLen := func(v ssa.Value) bool {
+					call, ok := v.(*ssa.Call)
+					if !ok {
+						return false
+					}
+					b, ok := call.Call.Value.(*ssa.Builtin)
+					return ok && b.Name() == "len"
+				}
+				if isSL(bo.X) && isLen(bo.Y) {
+					out = append(out, cmpInfo{bo.Op, bo, factsAt(bo.Block())})
+				}
+			}
+		}
+		return out
+	}
+	if fn := c.Func("statedb", "", "partGet"); fn != nil {
+		cs := find(fn)
+		good := len(cs) == 1 && cs[0].op == token.EQL
+		r.check(good, "statedb.partGet|exact secondary length", c.posStr(fn.Pos()), "Get on a non-unique index accepts an entry iff secondaryLen() == len(searchKey)", "Get on a non-unique index does not require the secondary key length to equal the search key's: a longer key sharing the prefix is returned")
+	} else {
+		r.anchorMissing("statedb.partGet")
+	}
+	if fn := c.Func("statedb", "nonUniquePartIterator", "All"); fn != nil {
+		cs := find(fn)
+		var list, prefix bool
+		for _, ci := range cs {
+			switch ci.op {
+			case token.NEQ:
+				list = true // List: skip when lengths differ
+			case token.LSS:
+				prefix = true // Prefix: skip when shorter
+			}
+		}
+		r.check(list && len(cs) == 2, "statedb.(nonUniquePartIterator).All|List skips entries of another length", c.posStr(fn.Pos()), "List: `secondaryLen != len(searchKey)` -> skip", "List on a non-unique index no longer skips exactly the entries whose secondary key has a different length")
+		r.check(prefix && len(cs) == 2, "statedb.(nonUniquePartIterator).All|Prefix skips shorter entries", c.posStr(fn.Pos()), "Prefix: `secondaryLen < len(searchKey)` -> skip", "Prefix on a non-unique index no longer skips exactly the entries whose secondary key is shorter than the search key")
+	} else {
+		r.anchorMissing("statedb.(nonUniquePartIterator).All")
+	}
+}
